@@ -235,6 +235,7 @@ static double vh_clock_fn(void)
     return vh_vclock;
 }
 
+static int vh_nohooks;
 static void vh_trace_init(uint64_t seed, int perturb, int use_vclock)
 {
     vh_events = (vh_event *)calloc(VH_MAX_EVENTS, sizeof(vh_event));
@@ -246,6 +247,12 @@ static void vh_trace_init(uint64_t seed, int perturb, int use_vclock)
         vh_target_kind = atoi(getenv("VH_TARGET_KIND"));
     if (getenv("VH_TARGET_US"))
         vh_target_us = atoi(getenv("VH_TARGET_US"));
+    if (getenv("VH_NOHOOKS")) {
+        /* the library runs exactly as it does in production (its own locks, no trace lock around the hooked
+         * sections, which otherwise hides a missing lock); only the harness's own notes are recorded */
+        vh_nohooks = 1;
+        return;
+    }
     ABTI_verif_hooks.lock = vh_trace_lock;
     ABTI_verif_hooks.unlock = vh_trace_unlock;
     if (use_vclock)
@@ -324,7 +331,7 @@ static void vh_dump(FILE *f, const char *status)
     static int node_thr[VH_MAX_NODES];
     int nnodes = 0;
     uint32_t i, n = vh_nevents;
-    fprintf(f, "STATUS %s events=%u overflow=%d\n", status, n, vh_overflow);
+    fprintf(f, "STATUS %s events=%u overflow=%d%s\n", status, n, vh_overflow, vh_nohooks ? " nohooks=1" : "");
     int t;
     for (t = 0; t < vh_nthrs; t++)
         fprintf(f, "THR %d %c\n", vh_thrs[t].index, vh_thrs[t].kind);
